@@ -2,43 +2,56 @@ package main
 
 import "verifharness/tl"
 
-// C08: at most laneSize tasks at once; work sharing. Families: every non-empty proper subset size of pinned
-// workers x target lane (everything pushed to one lane whose own worker may be pinned) for laneSize 2-4 x
-// queueSize 0-3, and stress with tasks that stay in Start() for a while (concurrency reaches laneSize;
-// the bound is a monitor over every history).
-func main() { tl.Main("C08", run) }
+// C08: at most laneSize tasks at once; work sharing. Families: for laneSize 2-4 x queueSize 0-3, every target
+// lane L and every set P of pinned workers with L's own worker in P and |P| < laneSize, everything pushed to
+// lane L must start on a worker outside P; pinning through one lane only (the pinning tasks spread by sharing
+// alone); the concurrency bound after every worker recovered panics (more never-ending tasks than workers);
+// stress with tasks that stay in Start() for a while (concurrency reaches laneSize; the bound is a monitor over
+// every history).
+func main() {
+	tl.Main("C08", []tl.Family{{Name: "sharing", Run: sharing}, {Name: "bound", Run: bound}, {Name: "stress", Run: stress}})
+}
 
-func run(en *tl.Engine) {
-	reps := 1
+func reps(en *tl.Engine, quick, thorough int) int {
 	if en.E.Thorough() {
-		reps = 6
+		return thorough
 	}
-	for rep := 0; rep < reps; rep++ {
+	return quick
+}
+
+func sharing(en *tl.Engine) {
+	for rep := 0; rep < reps(en, 1, 5); rep++ {
 		for _, c := range tl.Configs() {
 			n, q := c[0], c[1]
 			if n < 2 {
 				en.WorkSharing(n, q, nil, 0, q+3) // no sharing possible with one worker: bound only
 				continue
 			}
+			en.SharingSubsets(n, q)
 			for m := 1; m < n; m++ {
-				// pin workers through lanes 0..m-1, then everything to a pinned lane and to an unpinned one
+				// all pinning tasks through the same lane: they spread over the workers by sharing alone
+				en.WorkSharing(n, q, make([]int, m), 0, q+2)
+				// target lane outside the pinned set
 				pins := make([]int, m)
 				for i := range pins {
 					pins[i] = i
 				}
-				en.WorkSharing(n, q, pins, 0, q+3)
-				en.WorkSharing(n, q, pins, m-1, 2*(q+1)+1)
-				en.WorkSharing(n, q, pins, n-1, q+2)
-				// all pinning tasks through the same lane: they spread over the workers by sharing alone
-				same := make([]int, m)
-				en.WorkSharing(n, q, same, 0, q+2)
+				en.WorkSharing(n, q, pins, n-1, 2*(q+1)+1)
 			}
 		}
 	}
-	small, big := 300, 60
-	if en.E.Thorough() {
-		small, big = 3000, 800
+}
+
+func bound(en *tl.Engine) {
+	for rep := 0; rep < reps(en, 1, 5); rep++ {
+		for _, c := range tl.Configs() {
+			en.BoundAfterPanics(c[0], c[1], 1+rep%3)
+		}
 	}
+}
+
+func stress(en *tl.Engine) {
+	small, big := reps(en, 300, 3000), reps(en, 60, 800)
 	for i := 0; i < small; i++ {
 		n, q := 1+en.Rng.Intn(3), en.Rng.Intn(3)
 		en.Stress(n, q, tl.StressOpt{PanicPct: 0, Observers: 0, SleepTasks: true, CancelMode: 1}, i)
